@@ -12,7 +12,8 @@ Three independent evaluations per run:
          just returned for them is <= train_fdr; invariance of outcome/weights/predictions over input
          row order, shuffle switch and seed; prediction by name; save/load identity; fit-call count
   model  the compiled Lean model (`fitmodel`, cross-checked against `fitspec`, `predictbyname`, `argsort`;
-         `fitcv` / `cvexamples` for the hyper-parameter search step)
+         `fitcv` / `cvexamples` for the hyper-parameter search step; `getscores` for `_get_scores`;
+         `predictscaled` for `Model.decision_function` with a positional scaler and the is_trained guard)
 """
 from __future__ import annotations
 
@@ -39,7 +40,11 @@ RULE = (
     "(table, estimator, settings, variant); non-trivial = at least two fit calls were made or shuffling was on with a "
     "non-identity permutation; thorough adds the exhaustive sweep over all tables with n<=4 rows (feature values "
     "0..2, every target/decoy labelling), every permutation of the rows as the shuffle draw, shuffle on/off, "
-    "max_iter 1..3, with the order-sensitive estimator"
+    "max_iter 1..3, with the order-sensitive estimator; plus: tables of 230-450 rows; scoring-API cases (an estimator "
+    "per output form of decision_function / predict_proba: vector, 1/2/3 columns, nested list, both methods, 3 axes, "
+    "no column) with predictions on all rows, permuted rows, a subset and a single row; predictions through a "
+    "data-dependent positional scaler with permuted columns / other name sets / an untrained model; every re-fit run "
+    "twice (other shuffle switch, seed, row order) with `direction` set; load_model on a Percolator weights file"
 )
 
 PROBA_SHIFT = 2 ** 44
@@ -211,8 +216,10 @@ def accepted(scores, targets, thr):
 # ----------------------------------------------------------------------------
 # data
 # ----------------------------------------------------------------------------
-def gen_table(rng, nmax):
+def gen_table(rng, nmax, big=False):
     n = min(nmax, rng.choice([2, 3, 4, 5, 6, 8, 10, 14, 20, 30, 45, 60, 90, 140]))
+    if big:
+        n = rng.choice([230, 320, 450])   # beyond the "few PSMs" warning threshold of Model.fit (200 rows)
     nfeat = rng.choice([1, 1, 2, 3, 4])
     pat = rng.choice(["signal", "signal", "signal", "weak", "ties", "inverted"])
     tfrac = rng.choice([0.3, 0.5, 0.5, 0.7])
@@ -242,8 +249,8 @@ def gen_table(rng, nmax):
     return dict(ids=ids, feats=feats, targets=targets, pat=pat)
 
 
-def gen_case(rng, nmax=140):
-    tab = gen_table(rng, nmax)
+def gen_case(rng, nmax=140, big=False):
+    tab = gen_table(rng, nmax, big)
     n = len(tab["ids"])
     kind = rng.choice(KINDS)
     api = rng.choice(["decision", "decision", "proba2", "proba1"])
@@ -256,7 +263,9 @@ def gen_case(rng, nmax=140):
         thr = rng.choice(ok)
     else:
         thr = rng.choice(pool)
-    max_iter = rng.choice([1, 2, 2, 3, 3, 4, 5, 7, 10]) if rng.random() < 0.97 else 0
+    max_iter = rng.choice([1, 2, 2, 3, 3, 4, 5, 6, 7, 8, 9, 10]) if rng.random() < 0.97 else 0
+    if big:
+        max_iter = rng.choice([2, 3, 4])
     override = rng.random() < 0.5
     nfeat = len(tab["feats"][0])
     direction = None
@@ -877,9 +886,13 @@ class IntScaler(BaseEstimator):
 
 
 def refit_cases(chk, rng, count):
+    import copy
+
     import mokapot
+    from sklearn.exceptions import NotFittedError
 
     lines, pending = [], []
+    lines_p, pending_p = [], []     # `predictscaled`: Model.predict through a data-dependent positional scaler
     for _ in range(count):
         tab = gen_table(rng, 60)
         n = len(tab["ids"])
@@ -923,6 +936,60 @@ def refit_cases(chk, rng, count):
                     out.append((tab["feats"][i][j] - lo[j + 1]) * m)
             return out
 
+        # ---- prediction through the scaler: columns (the id as well) and rows in another order ----------
+        cols3 = list(names)
+        rng.shuffle(cols3)
+        order3 = order0[:]
+        rng.shuffle(order3)
+        n3 = rng.choice([n, n, 1])
+        order3 = order3[:n3]
+        trained3 = rng.random() < 0.9
+        which3 = rng.choice(["same", "same", "same", "same", "same", "rename", "extra"])
+        ren3 = {rng.choice(cols3): "zzz"} if which3 == "rename" else None
+        df3 = build_psms(tab, order3, colnames=cols3, rename=ren3)
+        if which3 == "extra":
+            df3["extra"] = 1.0
+        names3 = [c for c in df3.columns if c not in ("target", "spec", "pep")]
+        ps3 = dataset(df3, enforce=False)
+        pm = model if trained3 else mokapot.Model(APIS[api](kind=kind, log_id=log),
+                                                  scaler=IntScaler(mult) if scaled else "as-is")
+        try:
+            got3 = [float(x) for x in np.atleast_1d(pm.predict(ps3))]
+        except NotFittedError:
+            got3 = "reject-notfitted"
+        except ValueError as e:
+            got3 = "reject-features" if "do not match" in str(e) else "other:ValueError:" + str(e)[:80]
+        except Exception as e:  # noqa: BLE001
+            got3 = "other:" + type(e).__name__ + ":" + str(e)[:80]
+        sc3 = [sum(a * b for a, b in zip(w, srow(i, names))) for i in order3]
+        want3 = [float(x) if api == "decision" else _proba(x) for x in sc3]
+        chk.case(None, ("predict-scaled", json.dumps(tab, sort_keys=True), kind, api, scaled, mult, tuple(cols3),
+                        tuple(order3), trained3, which3), sample=None)
+        chk.count("predict_scaled", f"{'IntScaler' if scaled else 'as-is'},trained={trained3},names={which3},"
+                                    f"rows={'1' if n3 == 1 else 'n'}")
+        bad3 = False
+        if trained3 and which3 == "same":
+            if got3 != want3:
+                bad3 = True
+                chk.spec_violation("predict-scaled-by-name",
+                                   dict(clause="Model.predict with a positional scaler: the score of a PSM is not the "
+                                               "learned weights applied to its features matched by stored name and "
+                                               "scaled with the parameters of the column of that name",
+                                        tab=tab, kind=kind, api=api, scaled=scaled, mult=mult, cols=cols3,
+                                        order=order3, got=str(got3)[:300], want=str(want3)[:300]))
+        else:
+            # the property promises no score here (untrained model / another set of feature names)
+            chk.reject("predict-scaled:" + (got3 if isinstance(got3, str) else "ok"))
+        if not bad3:
+            raw3 = {c: [Fraction(tab["ids"][i]) if c == "rowid" else Fraction(tab["feats"][i][int(c[1:])])
+                        for i in order3] for c in names}
+            wire3 = [[c3, raw3[c] if c in raw3 else [Fraction(1)] * n3]
+                     for c, c3 in zip([c for c in cols3] + (["extra"] if which3 == "extra" else []), names3)]
+            lines_p.append(req("predictscaled", trained3, [Fraction(x) for x in lo], Fraction(m), names,
+                               [Fraction(x) for x in w], n3, wire3))
+            pending_p.append((got3, api, dict(tab=tab, kind=kind, api=api, scaled=scaled, mult=mult, cols=names3,
+                                              order=order3, trained=trained3)))
+
         # the second dataset: other row order, other feature-column order (the id stays the first feature
         # so that the recorder can still name the PSMs), sometimes another name set
         order2 = order0[:]
@@ -935,6 +1002,18 @@ def refit_cases(chk, rng, count):
         k2 = rng.choice([1, 2, 3])
         sh2 = rng.random() < 0.5
         model.max_iter, model.shuffle, model.rng = k2, sh2, rng.randrange(10 ** 6)
+        # `direction` is documented to be ignored once the model is trained (the model op passes none)
+        dir2 = rng.choice([None, None, cols2[-1], cols2[1]])
+        model.direction = dir2
+        # variant B of the same re-fit: a deep copy of the trained model, other shuffle switch / seed / row order
+        model_b = copy.deepcopy(model)
+        log_b = new_log()
+        model_b.estimator.log_id = log_b
+        sh2b = (not sh2) if rng.random() < 0.7 else sh2
+        model_b.shuffle, model_b.rng = sh2b, rng.randrange(10 ** 6)
+        order2b = order2[:]
+        if rng.random() < 0.6:
+            rng.shuffle(order2b)
         RECORDS[log] = []
         try:
             model.fit(ps2)
@@ -942,6 +1021,14 @@ def refit_cases(chk, rng, count):
         except Exception as e:  # noqa: BLE001
             status = classify_exc(e)
         events = RECORDS.pop(log, [])
+        try:
+            model_b.fit(dataset(build_psms(tab, order2b, colnames=cols2, rename=rename)))
+            status_b = "ok"
+        except Exception as e:  # noqa: BLE001
+            status_b = classify_exc(e)
+        events_b = RECORDS.pop(log_b, [])
+        chk.count("refit_direction", "none" if dir2 is None else "given")
+        chk.count("refit_variant_b", f"shuffle={sh2}->{sh2b},rows={'same' if order2b == order2 else 'permuted'}")
         ids2 = [tab["ids"][i] for i in order2]
         targets2 = [tab["targets"][i] for i in order2]
         start_scores = [sum(a * b for a, b in zip(w, srow(i, names))) for i in order2]
@@ -979,9 +1066,22 @@ def refit_cases(chk, rng, count):
                 if pos != acc or neg != {k for k in range(n) if not targets2[k]} or len(lab) != len(fits[0][1]):
                     viol.append(("refit-positives", "re-fit: first training set is not (accepted targets under the "
                                  "by-name start scores, all decoys)", dict(got=sorted(lab.items())[:12])))
+        if kind in INVARIANT_KINDS and rename is None and not viol:
+            def canon(st, evs, mdl):
+                fits_ = [e for e in evs if e[0] == "fit"]
+                return dict(status=st, weights=list(mdl.estimator.w_) if st == "ok" else None,
+                            trace=[sorted((r[0], y) for r, y in zip(e[1], e[2])) for e in fits_])
+            ca, cb = canon(status, events, model), canon(status_b, events_b, model_b)
+            for key in ("status", "weights", "trace"):
+                if ca[key] != cb[key]:
+                    viol.append(("refit-order-invariance",
+                                 f"re-fit: {key} depends on the shuffle switch, the seed or the input row order although "
+                                 "the estimator ignores the order of its examples",
+                                 dict(shuffle_b=sh2b, order2b=order2b, a=str(ca[key])[:300], b=str(cb[key])[:300])))
+                    break
         for sig, clause, detail in viol:
             chk.spec_violation(sig, dict(clause=clause, tab=tab, kind=kind, api=api, thr=str(thr), scaled=scaled,
-                                         mult=mult, cols2=cols2, order2=order2, max_iter2=k2, shuffle2=sh2, **detail))
+                                         mult=mult, cols2=cols2, order2=order2, max_iter2=k2, shuffle2=sh2, direction2=dir2, **detail))
         # model
         scores_ev = [e for e in events if e[0] == "score"]
         after_fit = False
@@ -1006,6 +1106,324 @@ def refit_cases(chk, rng, count):
         m = parse_fit(r)
         if impl != m and not had_viol:
             chk.corr_break("refitmodel", dict(case=info, impl=_short(impl), model=_short(m)))
+    for (impl, api, info), r in zip(pending_p, common.driver_batch(lines_p)):
+        r = r.strip()
+        if r in ("reject-features", "reject-notfitted"):
+            m = r
+        else:
+            m = [float(x) if api == "decision" else _proba(int(x)) for x in (a_rat(t) for t in dec(r))]
+        if impl != m:
+            chk.corr_break("predictscaled", dict(case=info, impl=str(impl)[:300], model=str(m)[:300]))
+
+
+# ----------------------------------------------------------------------------
+# the scoring API: which method of the estimator `_get_scores` uses, and what it makes of the output's shape
+# ----------------------------------------------------------------------------
+class _ShapeBase(BaseEstimator):
+    """fixed scorer (nothing is learned): raw score of a row = its feature 1 (an integer), times `sign`.
+    Every call is logged with the ids of the rows it was given."""
+
+    def __init__(self, log_id=0, sign=1):
+        self.log_id = log_id
+        self.sign = sign
+
+    def fit(self, X, y):
+        RECORDS.setdefault(self.log_id, []).append(
+            ("fit", [[int(r[0])] for r in _ints(X)], [float(v) for v in np.asarray(y)]))
+        self.fitted_ = True
+        return self
+
+    def _rawv(self, X, method):
+        rows = _ints(X)
+        RECORDS.setdefault(self.log_id, []).append(("call", method, [r[0] for r in rows]))
+        return [self.sign * r[1] for r in rows]
+
+    def _p(self, X, flip=False):
+        return np.array([_proba(-v if flip else v) for v in self._rawv(X, "predict_proba")], dtype=float)
+
+
+class ShapeDecision(_ShapeBase):
+    def decision_function(self, X):
+        return np.array([float(v) for v in self._rawv(X, "decision_function")], dtype=float)
+
+
+class ShapeFlat(_ShapeBase):
+    def predict_proba(self, X):
+        return self._p(X)
+
+
+class ShapeCol1(_ShapeBase):
+    def predict_proba(self, X):
+        return self._p(X).reshape(-1, 1)
+
+
+class ShapeCol2(_ShapeBase):
+    def predict_proba(self, X):
+        p = self._p(X)
+        return np.column_stack([1.0 - p, p])
+
+
+class ShapeCol3(_ShapeBase):
+    def predict_proba(self, X):
+        p = self._p(X)
+        return np.column_stack([1.0 - p, p, np.full(len(p), 0.25)])
+
+
+class ShapeList(_ShapeBase):
+    """a nested python list instead of an array (skorch & co. return what their module returns)"""
+
+    def predict_proba(self, X):
+        p = self._p(X)
+        return [[1.0 - float(v), float(v)] for v in p]
+
+
+class ShapeBoth(ShapeDecision):
+    """both methods, ranking the PSMs in opposite directions: `decision_function` must be the one used"""
+
+    def predict_proba(self, X):
+        p = self._p(X, flip=True)
+        return np.column_stack([1.0 - p, p])
+
+
+class ShapeCube(_ShapeBase):
+    def predict_proba(self, X):
+        p = self._p(X)
+        return np.column_stack([1.0 - p, p]).reshape(len(p), 2, 1)
+
+
+class ShapeCol0(_ShapeBase):
+    def predict_proba(self, X):
+        return np.empty((len(self._p(X)), 0))
+
+
+SHAPES = {"decision": ShapeDecision, "flat": ShapeFlat, "col1": ShapeCol1, "col2": ShapeCol2, "col3": ShapeCol3,
+          "list2": ShapeList, "both": ShapeBoth, "cube": ShapeCube, "col0": ShapeCol0}
+SHAPE_ERRORS = {"cube": "reject-dims", "col0": "reject-index"}
+
+
+def shape_outputs(shape, raws):
+    """what the estimator's methods return for rows with the raw scores `raws`, as exact wire values:
+    (decision argument, predict_proba argument) of the driver op `getscores` — computed here from the
+    definition of the fixture, not read back from the code under test"""
+    half = Fraction(1, 2)
+    p = [half + Fraction(v, PROBA_SHIFT) for v in raws]
+    pf = [half + Fraction(-v, PROBA_SHIFT) for v in raws]
+    dec_arg = [[Fraction(v) for v in raws]] if shape in ("decision", "both") else []
+    if shape == "decision":
+        proba = [Atom("vec"), []]        # never called; any value
+    elif shape == "flat":
+        proba = [Atom("vec"), p]
+    elif shape == "col1":
+        proba = [Atom("mat"), 1, [[x] for x in p]]
+    elif shape in ("col2", "list2"):
+        proba = [Atom("mat"), 2, [[1 - x, x] for x in p]]
+    elif shape == "col3":
+        proba = [Atom("mat"), 3, [[1 - x, x, Fraction(1, 4)] for x in p]]
+    elif shape == "both":
+        proba = [Atom("mat"), 2, [[1 - x, x] for x in pf]]
+    elif shape == "cube":
+        proba = [Atom("higher")]
+    else:
+        proba = [Atom("mat"), 0, [[] for _ in raws]]
+    return dec_arg, proba
+
+
+def shape_spec(shape, raws):
+    """re-statement: the score of a PSM is its decision value when the estimator has a `decision_function`,
+    otherwise its positive-class probability"""
+    if shape in ("decision", "both"):
+        return [float(v) for v in raws]
+    return [_proba(v) for v in raws]
+
+
+def classify_score_exc(e):
+    if isinstance(e, RuntimeError) and "too many dimensions" in str(e):
+        return "reject-dims"
+    if isinstance(e, IndexError):
+        return "reject-index"
+    return classify_exc(e)
+
+
+def gen_shape_case(rng, c):
+    shapes = list(SHAPES)
+    shape = shapes[c % len(shapes)] if c < 2 * len(shapes) else rng.choice(shapes)
+    n = rng.choice([5, 6]) if c < len(shapes) else rng.choice([5, 6, 9, 15, 30, 60])   # small tables first
+    targets = [rng.random() < 0.6 for _ in range(n)]
+    targets[0], targets[1], targets[2], targets[3] = True, False, True, True
+    sign = rng.choice([1, 1, -1])
+    vals = rng.sample(range(-3 * n, 3 * n), n)                        # distinct raw scores
+    vals.sort(reverse=(sign == 1))
+    # most targets in front of the decoys (under `sign`), so that training gets started
+    tpos = [i for i in range(n) if targets[i]]
+    dpos = [i for i in range(n) if not targets[i]]
+    rng.shuffle(tpos)
+    rng.shuffle(dpos)
+    front = max(2, (2 * len(tpos)) // 3)
+    ranking = tpos[:front] + dpos[:1] + tpos[front:] + dpos[1:]
+    f0 = [0] * n
+    for v, i in zip(vals, ranking):
+        f0[i] = v
+    ids = list(range(n))
+    rng.shuffle(ids)
+    tab = dict(ids=ids, feats=[[v] for v in f0], targets=targets, pat="shape")
+    thr = rng.choice([t for t in (Fraction(1, 2), Fraction(1, 4), Fraction(3, 4), Fraction(1)) if t * front >= 1])
+    if rng.random() < 0.1:
+        thr = Fraction(1, 8)
+    order = list(range(n))
+    rng.shuffle(order)
+    return dict(tab=tab, shape=shape, sign=sign, thr=str(thr), shuffle=(rng.random() < 0.6),
+                max_iter=rng.choice([1, 2, 3]), order=order, seed=rng.randrange(10 ** 6))
+
+
+def eval_shape_cases(chk, infos):
+    import random
+
+    import mokapot
+
+    lines, pending = [], []
+    for info in infos:
+        tab, shape, sign, thr = info["tab"], info["shape"], info["sign"], Fraction(info["thr"])
+        ids, targets, order = tab["ids"], tab["targets"], info["order"]
+        f0 = [r[0] for r in tab["feats"]]
+        n = len(ids)
+        prng = random.Random(info["seed"])
+        log = new_log()
+        model = mokapot.Model(SHAPES[shape](log_id=log, sign=sign), scaler="as-is", train_fdr=float(thr),
+                              max_iter=info["max_iter"], shuffle=info["shuffle"], rng=info["seed"], override=True,
+                              direction="f0")
+        psms = dataset(build_psms(tab, order), enforce=False)
+        try:
+            model.fit(psms)
+            status = "ok"
+        except Exception as e:  # noqa: BLE001
+            status = classify_score_exc(e)
+        events = RECORDS.pop(log, [])
+        chk.case(None, ("score-api", json.dumps(info, sort_keys=True)), sample=None)
+        chk.count("score_api", shape)
+        chk.count("score_api_status", f"{shape}:{status}")
+        raw_of = {ids[i]: sign * f0[i] for i in range(n)}
+        by_id = {ids[i]: i for i in range(n)}
+        # ---- ill-formed outputs: nothing is promised, code and model must refuse alike ------------------
+        if shape in SHAPE_ERRORS or status in ("reject-dims", "reject-index"):
+            chk.reject("score-api:" + status)
+            if any(e[0] == "call" for e in events):      # `_get_scores` was reached (training got started)
+                d_arg, p_arg = shape_outputs(shape, [raw_of[ids[i]] for i in order])
+                lines.append(req("getscores", d_arg, p_arg))
+                pending.append(("status", status if status in ("reject-dims", "reject-index") else "ok", info))
+            continue
+        if status != "ok":
+            chk.reject("score-api:" + status)
+            continue
+        viol = []
+        # ---- which method was called -------------------------------------------------------------------
+        called = {e[1] for e in events if e[0] == "call"}
+        want_called = {"decision_function"} if shape in ("decision", "both") else {"predict_proba"}
+        if called != want_called:
+            viol.append(("score-api-method", "an estimator with a decision_function must be scored with it, one "
+                         "without by predict_proba", dict(called=sorted(called))))
+        # ---- inside the loop: positives of iteration k+1 = accepted targets under the spec scores --------
+        fits = [e for e in events if e[0] == "fit"]
+        acc, boundary = accepted([Fraction(raw_of[ids[i]]) for i in range(n)], targets, thr)
+        if not boundary:
+            for k, e in enumerate(fits[1:], start=1):
+                lab = {by_id[r[0]]: y for r, y in zip(e[1], e[2]) if r[0] in by_id}
+                pos = {i for i, y in lab.items() if y == 1.0}
+                neg = {i for i, y in lab.items() if y == 0.0}
+                if len(lab) != len(e[1]) or pos != acc or neg != {i for i in range(n) if not targets[i]}:
+                    viol.append(("score-api-positives",
+                                 "positives are not exactly the targets accepted at train_fdr under the scores of the "
+                                 "method `_get_scores` must use (negatives: the decoys)",
+                                 dict(iter=k, extra=sorted(ids[i] for i in pos - acc),
+                                      missing=sorted(ids[i] for i in acc - pos))))
+                    break
+        # ---- Model.predict: all rows, rows in another order, one row ---------------------------------------
+        probes = [("all", list(order))]
+        o2 = list(order)
+        prng.shuffle(o2)
+        probes.append(("permuted", o2))
+        probes.append(("one", [prng.choice(order)]))
+        probes.append(("subset", o2[: max(1, n // 3)]))
+        for name, o in probes:
+            try:
+                got = [float(x) for x in np.atleast_1d(model.predict(dataset(build_psms(tab, o), enforce=False)))]
+            except Exception as e:  # noqa: BLE001
+                got = "raised " + repr(e)[:160]
+            raws = [raw_of[ids[i]] for i in o]
+            want = shape_spec(shape, raws)
+            chk.count("score_api_probe", name)
+            if got != want:
+                viol.append(("score-api", "Model.predict does not return, for every PSM of the dataset and in its row "
+                             "order, that PSM's own score (decision value / positive-class probability)",
+                             dict(probe=name, rows=len(o), got=str(got)[:300], want=str(want)[:300])))
+                continue
+            d_arg, p_arg = shape_outputs(shape, raws)
+            lines.append(req("getscores", d_arg, p_arg))
+            pending.append(("scores", got, dict(info, probe=name, rows=o)))
+        for sig, clause, detail in viol:
+            chk.spec_violation(sig, dict(clause=clause, shape_case=info, **detail))
+    for (kind, impl, info), r in zip(pending, common.driver_batch(lines)):
+        r = r.strip()
+        if r in ("reject-dims", "reject-index"):
+            m = r
+        elif kind == "status":
+            m = "ok"
+        else:
+            m = [float(a_rat(t)) for t in dec(r)]
+        if impl != m:
+            chk.corr_break("getscores", dict(case=info, impl=str(impl)[:300], model=str(m)[:300]))
+
+
+def score_api_cases(chk, rng, count):
+    eval_shape_cases(chk, [gen_shape_case(rng, c) for c in range(count)])
+
+
+# ----------------------------------------------------------------------------
+# load_model on a Percolator weights file (the other branch of load_model, model.py:518-530)
+# ----------------------------------------------------------------------------
+def percolator_weights_cases(chk, rng, count):
+    """The property speaks of models saved by mokapot; for a Percolator weights file it promises nothing, so a
+    refusal is tallied.  If the file loads, the loaded model is a trained Model and must predict by feature name."""
+    import mokapot
+
+    with tempfile.TemporaryDirectory() as tmp:
+        for c in range(count):
+            nfeat = rng.choice([2, 3, 5])
+            names = [f"f{j}" for j in range(nfeat)]
+            norm = [rng.randint(-8, 8) / 4 for _ in names]
+            raw = [rng.randint(-8, 8) / 4 for _ in names]
+            m0 = [rng.randint(-8, 8) / 4, rng.randint(-8, 8) / 4]
+            path = Path(tmp) / f"weights{c}.txt"
+            path.write_text("\t".join(names + ["m0"]) + "\n" + "\t".join(map(str, norm + [m0[0]])) + "\n"
+                            + "\t".join(map(str, raw + [m0[1]])) + "\n")
+            chk.case(None, None)
+            try:
+                model = mokapot.load_model(path)
+            except Exception as e:  # noqa: BLE001
+                chk.reject("load-percolator-weights:" + type(e).__name__)
+                chk.extra["load_model_percolator_weights"] = "raises " + repr(e)[:160]
+                continue
+            n = 6
+            tab = dict(ids=list(range(n)), feats=[[rng.randint(-5, 5) for _ in names] for _ in range(n)],
+                       targets=[i % 2 == 0 for i in range(n)], pat="percolator")
+            preds = []
+            for rep in range(2):
+                cols = list(names)
+                if rep:
+                    rng.shuffle(cols)
+                df = build_psms(tab, list(range(n)), colnames=["rowid"] + cols).drop(columns=["rowid"])
+                try:
+                    preds.append([float(x) for x in model.predict(dataset(df, enforce=False))])
+                except Exception as e:  # noqa: BLE001
+                    chk.reject("predict-percolator-weights:" + type(e).__name__)
+                    chk.extra["load_model_percolator_weights"] = "loads; predict raises " + repr(e)[:160]
+                    preds = None
+                    break
+            if preds is not None:
+                chk.extra["load_model_percolator_weights"] = "loads and predicts"
+                if preds[0] != preds[1] or model.features != names or not model.is_trained:
+                    chk.spec_violation("predict-by-name:percolator-weights",
+                                       dict(clause="a model loaded from a Percolator weights file predicts by column "
+                                                   "position", names=names, raw=raw, a=preds[0], b=preds[1]))
 
 
 # ----------------------------------------------------------------------------
@@ -1338,6 +1756,8 @@ def search(chk):
     if not chk.spec_violations:
         refit_cases(chk, rng, 300)
     if not chk.spec_violations:
+        score_api_cases(chk, rng, 300)
+    if not chk.spec_violations:
         exhaustive(chk, 4, (1, 2, 3))
     minimise(chk)
 
@@ -1350,11 +1770,14 @@ def main(chk, args):
     quick = chk.tier == "quick"
     cases = corpus_cases()
     cases += [gen_case(rng) for _ in range(300 if quick else 2500)]
+    cases += [gen_case(rng, big=True) for _ in range(3 if quick else 12)]
     eval_cases(chk, cases)
     argsort_cases(chk, rng, 50 if quick else 500)
     sklearn_cases(chk, rng, 6 if quick else 60)
-    refit_cases(chk, rng, 60 if quick else 600)
+    refit_cases(chk, rng, 90 if quick else 700)
     hyperparameter_cases(chk, rng, 12 if quick else 120)
+    score_api_cases(chk, rng, 27 if quick else 300)
+    percolator_weights_cases(chk, rng, 2 if quick else 10)
     if quick:
         exhaustive(chk, 3, (1, 2))
     else:
@@ -1381,6 +1804,14 @@ def main(chk, args):
         "parameters is proved for searches that ignore the order of their examples (an un-shuffled KFold does not)",
         "re-fitting a trained model is modelled (refitModel) with the scaler taken as a per-column map that "
         "commutes with column selection (IntScaler in the harness)",
+        "_get_scores is modelled on the outputs of the estimator's methods (getScores: decision_function first, else "
+        "predict_proba as vector / matrix of any width / >2 axes); that an estimator's methods act row by row is the "
+        "estimator's contract (Est.score), not mokapot's; ill-formed outputs (3 axes, no column) promise nothing and "
+        "are only compared code vs model (reject-dims / reject-index)",
+        "Model.decision_function with a scaler is modelled with an arbitrary positional transform applied after the "
+        "selection by stored name (predictScaled); fitting the scaler (fit_transform at model.py:288) is not modelled",
+        "load_model on a Percolator weights file (model.py:518-530) is outside the property text (not a model saved by "
+        "mokapot): exercised, outcome recorded in evidence key load_model_percolator_weights, refusals tallied",
         "feature values are small integers so that every estimator sum/product is exact in float64; q-value "
         "threshold comparisons at an exact decimal boundary are tallied as float_boundary_cases and skipped",
     ]
@@ -1391,6 +1822,12 @@ def main(chk, args):
 
 def replay(chk, path):
     info = json.loads(open(path).read())
+    if "shape_case" in info:
+        common.build_and_audit("C12")
+        eval_shape_cases(chk, [info["shape_case"]])
+        for sig, i in chk.spec_violations:
+            print("REPRODUCED", sig, json.dumps(i, default=str)[:1500])
+        return 1 if chk.spec_violations else 0
     if "case" not in info or "tab" not in info.get("case", {}):
         print(json.dumps(info, indent=1)[:3000])
         return 0
